@@ -8,6 +8,7 @@ AclNotExclusiveError iff >=2 generators have a deletable rule matching one gener
 the union of all yielded paths (each once, first-seen order per level).
 """
 import random
+import re
 import textwrap
 
 from vf.ref import acl as A
@@ -22,7 +23,7 @@ ASSUMPTIONS = [
     "coverage and exclusivity by R3 (vf/ref/acl.py); cases where the ideal coverage and the implementation's documented winner rule disagree (known findings of C06) are skipped and counted",
     "programs yield rows in negated form only in the dedicated scenario (a negated line owned literally by one generator and through its positive rule by another)",
 ]
-FLOORS = {"quick": {"runs": 1200, "outcome_ok": 300, "outcome_generator_error": 150, "outcome_not_exclusive": 60, "block_contexts_entered": 2000, "annotated_runs": 80, "annotated_rows": 200, "cases_with_a_silent_generator": 300, "cases_with_three_differently_written_rules": 300, "comment_rows_yielded_inside_blocks": 200, "acl_comment_lines": 3000, "rules_mentioning_interface_not_at_start": 4000, "multi_line_yields_all_inside_the_first_line": 500, "cases_with_device_rows_claimed_by_several_generators": 800, "cases_with_a_negated_line_owned_literally_and_through_its_positive_rule": 300, "reused_generator_object_runs": 150, "tuple_yields_with_an_inline_list": 300, "tuple_yields_with_a_lazy_iterable": 300, "cases_with_a_global_and_a_nested_local_rule_of_one_text": 300, "cases_with_a_line_holding_an_unusual_separator_character": 300, "cases_on_brace_syntax_vendors": 300, "reused_generator_objects_whose_earlier_run_ended_inside_a_block": 60},
+FLOORS = {"quick": {"runs": 1200, "outcome_ok": 300, "outcome_generator_error": 150, "outcome_not_exclusive": 60, "block_contexts_entered": 2000, "annotated_runs": 80, "annotated_rows": 200, "cases_with_a_silent_generator": 300, "cases_with_three_differently_written_rules": 300, "comment_rows_yielded_inside_blocks": 200, "acl_comment_lines": 3000, "rules_mentioning_interface_not_at_start": 4000, "multi_line_yields_all_inside_the_first_line": 500, "cases_with_device_rows_claimed_by_several_generators": 800, "cases_with_a_negated_line_owned_literally_and_through_its_positive_rule": 300, "reused_generator_object_runs": 150, "tuple_yields_with_an_inline_list": 300, "tuple_yields_with_a_lazy_iterable": 300, "cases_with_a_global_and_a_nested_local_rule_of_one_text": 300, "cases_with_a_line_holding_an_unusual_separator_character": 300, "cases_on_brace_syntax_vendors": 300, "acl_texts_indented_with_tabs": 300, "reused_generator_objects_whose_earlier_run_ended_inside_a_block": 60},
           "thorough": {"runs": 50000, "outcome_ok": 12000, "outcome_generator_error": 6000, "outcome_not_exclusive": 2500, "block_contexts_entered": 80000, "annotated_runs": 3000, "annotated_rows": 8000, "cases_with_a_silent_generator": 12000, "cases_with_three_differently_written_rules": 12000, "comment_rows_yielded_inside_blocks": 4000, "acl_comment_lines": 60000, "rules_mentioning_interface_not_at_start": 80000}}
 VENDORS = ["huawei", "cisco", "arista", "nexus"]
 HEADS = ["a", "b", "c", "interface", "router", "x", "ntp source-interface", "c passive-interface"]  # the word `interface` only makes a rule not deletable by default at its start
@@ -493,8 +494,12 @@ def check_case(seed, acc, silent=False, ranked=False, negx=False, globx=False, o
     counter = [0]
     real = []
     texts = []
-    for g in gens:
+    for gi_, g in enumerate(gens):
         text = render_indented(g["acl"], rng)
+        if (seed + gi_) % 5 == 0:
+            # this generator's author indents with tabs, one per level
+            text = re.sub(r"(?m)^((?:    )+)", lambda m_: "\t" * (len(m_.group(1)) // 4), text)
+            acc.count("acl_texts_indented_with_tabs", 1 if "\n\t" in text else 0)
         texts.append(text)
         real.append(H.make_partial(g["name"], vname, text, make_run(g["program"], counter)))
     w = {"seed": seed, "silent": silent, "ranked": ranked, "negx": negx, "globx": globx, "oddx": oddx, "bracev": bracev, "vendor": vname, "generators": [{"name": g["name"], "program": g["program"], "acl": A.render(g["acl"]), "acl_mode": g["mode"]} for g in gens]}
